@@ -50,7 +50,7 @@ func (c03) Budget(tier string) int {
 	if tier == "thorough" {
 		return 80000
 	}
-	return 2000
+	return 1500
 }
 
 var hashHeavy = []string{
